@@ -14,7 +14,7 @@ func init() {
 		NeedSSA: true,
 		Decided: "the dispatch table maps exactly the six message types to their handlers, value/provider handlers only when the store exists (R1); every loop cycle of the stream handler re-checks server mode before reading and before dispatch (R2); every wire reader is bounded by MessageSizeMax (R3); " +
 			"closer peers: count+1 asked from the table, self and requester skipped, loop left at count, bucketSize passed by every handler, FIND_NODE prepends only the target and keeps only peers with addresses (R4); every outgoing peer record is built by a bounding constructor and stores to CloserPeers/ProviderPeers take only such values (R5); the provider budget test dominates the append, constants fit (R6); " +
-			"ADD_PROVIDER key bounds, sender identity, non-empty addresses, filtered addresses; GET_PROVIDERS key bounds and filtered served addresses (R7); echoing handlers strip peer records before every return of the request (R8); nil-safe request access, no reachable explicit panic outside three constant-encoding sites, guarded indexing (R9); close only on orderly completion, false on every handler/unmarshal/write error (R10); no function of the server-side packages returns with a mutex it acquired still held (R11).",
+			"ADD_PROVIDER key bounds, sender identity, non-empty addresses, filtered addresses; GET_PROVIDERS key bounds and filtered served addresses (R7); echoing handlers strip peer records before every return of the request (R8); nil-safe request access, no reachable explicit panic outside three constant-encoding sites, guarded indexing (R9); close only on orderly completion, false on every handler/unmarshal/write error (R10); no function of the server-side packages returns with a mutex it acquired still held (R11). Added after the seeded rounds: the FIND_NODE response is built with a nil key (R4); the switch to client mode resets every inbound DHT stream whatever the connection's direction (R12, shared C13.R3).",
 		NotDecided: "byte-level well-formedness produced by protobuf-go; 'nearest first' (library kbucket order); bucket sizes above 510.",
 	})
 }
